@@ -17,6 +17,7 @@ import (
 	"net"
 	"net/http"
 	"path/filepath"
+	"sort"
 	"strconv"
 	"strings"
 	"sync"
@@ -1131,8 +1132,25 @@ func (c *DefaultCtx) Path(override ...string) string {
 		c.fasthttp.Request.URI().SetPath(c.pathOriginal)
 		// Prettify path
 		c.configDependentPaths()
+		// The new path may select another part of the route tree
+		c.reanchorRoute()
 	}
 	return c.app.getString(c.path)
+}
+
+// reanchorRoute puts the route cursor at the place of the current route in the
+// part of the route tree that the detection path selects, so that Next continues
+// with the routes registered after the current one.
+func (c *DefaultCtx) reanchorRoute() {
+	if c.route == nil || c.methodInt < 0 {
+		return
+	}
+	tree, ok := c.app.treeStack[c.methodInt][c.treePathHash]
+	if !ok {
+		tree = c.app.treeStack[c.methodInt][0]
+	}
+	pos := c.route.pos
+	c.indexRoute = sort.Search(len(tree), func(i int) bool { return tree[i].pos > pos }) - 1
 }
 
 // Scheme contains the request protocol string: http or https for TLS requests.
